@@ -646,8 +646,33 @@ fn run_config(case: &Sx) -> Sx {
     ])
 }
 
+/// The log level is part of the configuration: with VERIF_LOG=<level> a logger that formats every record it is
+/// given (and throws the text away) is installed at that level, so that the arguments of the `trace!` / `debug!`
+/// calls on the storage paths are evaluated exactly as under SCCACHE_LOG=<level>.
+struct SinkLogger;
+impl log::Log for SinkLogger {
+    fn enabled(&self, _: &log::Metadata) -> bool {
+        true
+    }
+    fn log(&self, record: &log::Record) {
+        let _ = format!("{} {}", record.target(), record.args());
+    }
+    fn flush(&self) {}
+}
+static SINK_LOGGER: SinkLogger = SinkLogger;
+
+fn install_logger() {
+    if let Ok(level) = std::env::var("VERIF_LOG") {
+        if let Ok(filter) = level.parse::<log::LevelFilter>() {
+            let _ = log::set_logger(&SINK_LOGGER);
+            log::set_max_level(filter);
+        }
+    }
+}
+
 fn main() {
     vh::quiet_panics();
+    install_logger();
     let leg = std::env::args().nth(1).unwrap_or_default();
     match leg.as_str() {
         "ro" => vh::run_lines(run_ro),
